@@ -139,6 +139,12 @@ def run(rep, tier, seed, proof_ok):
             call = {"a": "call", "mod": "m0", "fn": "root", "style": "eval", "pos": [], "kw": []}
             pre = [{"a": "call", "mod": "m0", "fn": "prod", "style": "direct", "pos": [], "kw": []}] if producer == "earlier-evaluation" else []
             jobs.append({"prog": prog, "call": call, "pre": pre, "load_scenario": f"{placement}/{producer}"})
+    # a path loaded from an earlier evaluation whose signature is also kept, under another path, in this evaluation
+    for placement in c09.PLACEMENTS:
+        prog = c09.build(placement, "alias-of-earlier-evaluation")
+        call = {"a": "call", "mod": "m0", "fn": "root", "style": "eval", "pos": [], "kw": []}
+        pre = [{"a": "call", "mod": "m0", "fn": "prod", "style": "keep", "path": "/p", "pos": [], "kw": []}]
+        jobs.append({"prog": prog, "call": call, "pre": pre, "load_scenario": f"{placement}/alias-of-earlier-evaluation"})
     with cf.ThreadPoolExecutor(max_workers=C.NPROC) as ex:
         res = list(ex.map(one, jobs))
     good = [r for r in res if "error" not in r and r["rec"]["impl"]["out"].startswith("ok:")]
@@ -187,6 +193,7 @@ def run(rep, tier, seed, proof_ok):
                     ft, st = e.rsplit(":", 1)
                     a, b = ft.split(">")
                     medges.add((a, b, st))
+            mnodes |= {x for a, b, _ in medges for x in (a, b)}     # dot declares the end points of an edge as nodes
             if mnodes != nodes or medges != edges:
                 rep.violation("model-mismatch:graph", f"exported graph and model differ: nodes {sorted(nodes ^ mnodes)[:4]} edges {sorted(edges ^ medges)[:4]}",
                               dict(rep_job, impl_nodes=sorted(nodes), impl_edges=sorted(edges), model=m))
